@@ -62,6 +62,10 @@ class Member(object):
         for op in reach_ops(cfg, state):
             w.apply(op)
         self.reached = w.state()
+        if cfg.get("hqueue"):
+            w.apply(["hqueue"] + list(cfg["hqueue"]))       # the application has a message queued for the peer
+        if cfg.get("hfail_at"):
+            w.apply(["hfail", cfg["hfail_at"]])              # its n-th callback from now raises ENOSPC
         self.pos = len(w.log)
         self.w = w
         c = w.conn(0)
@@ -221,7 +225,15 @@ class FramingCtx(object):
             return ["family", state, stream.hex(), segs, 0]
         else:
             nframes = rng.randrange(1, 7)
-            stream = b"".join(self.gen_frame(rng, state) for _ in range(nframes))
+            fl = [self.gen_frame(rng, state) for _ in range(nframes)]
+            if rng.chance(0.2):
+                # the peer repeats itself (a table re-sent after a route refresh): the same good UPDATE twice
+                u = base.gen_update(rng, cfg, False)
+                i = rng.randrange(len(fl) + 1)
+                fl.insert(i, u)
+                fl.insert(rng.randrange(i + 1, len(fl) + 1), u)
+                self.stats["gen:repeated_update"] += 1
+            stream = b"".join(fl)
             r = rng.random()
             if r < 0.15 and len(stream) > 1:
                 stream = stream[:rng.randrange(1, len(stream))]          # truncated tail
@@ -316,6 +328,11 @@ class FramingCtx(object):
                                 "stream %s in %s: delivered whole -> %s ; cut at %s -> %s"
                                 % (stream_hex[:120], state, brief(base_s), cuts[:8], brief(s)),
                                 {"whole": base_s, "cut": s, "cuts": cuts})
+        if cfg.get("hqueue") or cfg.get("hfail_at"):
+            # with an application-side fault or queued message the reaction is not the reference model's
+            # business: termination and independence of the segmentation were checked above
+            self.stats["families_with_application_fault_or_queue(differential_only)"] += 1
+            return
         # (b) reference: deframer + C01 model on the whole-chunk member.  An unknown type octet in a
         # frame whose body has not fully arrived may be rejected at once or when the frame is complete.
         frames_late, _ = rp.deframe(stream, early_type=False, strict=True)
@@ -464,10 +481,10 @@ class FramingProfile(BaseProfile):
     rule = ("one run = one peer byte stream (1-6 valid/invalid frames, optional truncated tail or trailing garbage) placed in "
             "OpenSent/OpenConfirm/Established and delivered to a FAMILY of fresh agents that differ only in segmentation "
             "(whole, byte-at-a-time, 1-cuts, 2-cuts, header/boundary-biased, random multi-cuts; optional delay between "
-            "segments); thorough adds every 1-cut (streams <= 400 B), every 2-cut (<= 64 B) and the full sweep of the "
+            "segments; 30 % of the agents run with the RIB on, 20 % of the streams repeat a good UPDATE, 12 % of the families have an application handler that raises ENOSPC at its 1st-4th callback and 12 % an application message queued for the peer - these are judged for termination and independence of the segmentation only); thorough adds every 1-cut (streams <= 400 B), every 2-cut (<= 64 B) and the full sweep of the "
             "length field 0..65535 and the type octet 0..255; non-trivial = the prefix reached the intended state; "
             "distinct = distinct (state, frame-kind sequence, partial-tail) triple")
-    probes = ["gen:long_streams(>4096)", "frame:bad_marker", "frame:bad_length", "frame:bad_type", "frame:UPDATE", "frame:OPEN", "frame:KEEPALIVE",
+    probes = ["gen:repeated_update", "families_with_application_fault_or_queue(differential_only)", "gen:long_streams(>4096)", "frame:bad_marker", "frame:bad_length", "frame:bad_type", "frame:UPDATE", "frame:OPEN", "frame:KEEPALIVE",
               "frame:NOTIFICATION", "frame:ROUTE-REFRESH", "stream_with_partial_tail", "delayed_segments", "reference_full"]
 
     def gen_config(self, rng, idx, tier):
@@ -475,6 +492,9 @@ class FramingProfile(BaseProfile):
         cfg["call_later"] = 0
         cfg["peer_open"] = base.gen_open(rng, cfg, "valid", hold=rng.pick([0, 3, 30, 90, 180])).hex()
         cfg["mode"] = "random"
+        cfg["rib"] = rng.chance(0.3)
+        cfg["hfail_at"] = rng.pick([1, 2, 3, 4]) if rng.chance(0.12) else None
+        cfg["hqueue"] = [rng.pick(["update", "update", "notification"]), rng.randrange(1, 9)] if rng.chance(0.12) else None
         n_random = self.runs_random[tier]
         if idx >= n_random:
             # the rest of the index space is the exhaustive sweep of the length field and type octet
